@@ -209,6 +209,9 @@ func RunC14(rep *explore.Report, tier string) {
 	grid = append(grid, cfg([]int64{3, 2}, 0, 1, 2, 0, false, 0, "no", "f52:16", 4, 2, "standard", "classes"))
 	grid = append(grid, cfg([]int64{2, 2, 2, 2, 2, 2, 2}, 0, 1, 2, 0, false, 0, "no", "f36", 4, 2, "short", "classes"))
 	RunGrid(rep, grid, Visitors["C14"], GridOpts{Property: "C14", MaxState: 3000000})
+	// the same oracle on genuinely uninterrupted objects (no state cloning): keeps aliasing between the deck and dealt cards
+	RunGrid(rep, ReplayGrid(tier), Visitors["C14"], GridOpts{Property: "C14", MaxState: 300000, Mode: "replay"})
+	rep.Set("replay_mode_configurations", int64(len(ReplayGrid(tier))))
 	for n := 0; n <= 7; n++ {
 		shuffleEnum(rep, pf.NewStandardDeckCards()[:n], -1, false)
 	}
